@@ -161,17 +161,69 @@ def unionIR (unify : Bool) (ts : List TType) : Option TType :=
   | some (c0 :: cs) => if cs.all (fun c => c.row == c0.row && c.key == c0.key) then some c0 else none
   | _ => none
 
-/-- `Table.join(right)` without name collisions: `TableJoin._compute_type` — globals concatenated, the left key fields, the left
-value fields, the right value fields; the key is the left key.  The key TYPES (not the names) must agree. -/
-def join (l r : TType) : Option TType :=
-  match keyType l, keyType r with
-  | some kl, some kr =>
+/-! ### `Table.join(right)`
+
+The front end (`hail/table.py::Table.join`) first renames every non-key field of the right table — row-value fields AND globals —
+that clashes with ANY field name of the left table (`hail.utils.deduplicate`: `n`, `n_1`, `n_2`, … up to 100 attempts), then
+emits `TableJoin`.  `TableJoin._compute_type` (Python) combines the global structs and the row structs with `tstruct._concat`, a
+dict update that silently merges equal names; the engine (`TableJoin.typ`: `left.globalType ++ right.globalType`,
+`leftKeyType ++ leftValueType ++ rightValueType`) uses the struct concatenation that is fatal on a duplicate name.  The model
+keeps the two apart: `joinReported` (dict update) is what the `Table` reports, `joinIR` (strict) what the IR implies;
+`Props/C36.lean::join_well_typed`: after the renaming they agree.
+
+(`deduplicate` walks a Python `set`, in hash order; the order only matters when some name already has the form `n_i` of another
+one.  The model walks value fields, then globals; the generated names never have that form.) -/
+
+def candidates (n : String) : List String := (List.range 100).map fun i => n ++ "_" ++ toString (i + 1)
+
+/-- one step of `deduplicate(…, max_attempts=100)`: the name itself when unused, else the first unused `n_i` -/
+def dedupName (used : List String) (n : String) : Option String :=
+  if !used.contains n then some n else (candidates n).find? fun c => !used.contains c
+
+/-- `deduplicate(ids, already_used=used)`: the new name of every id, in order; each chosen name becomes used -/
+def dedupAll : List String → List String → Option (List String)
+  | _, [] => some []
+  | used, n :: r => match dedupName used n with
+    | none => none
+    | some m => (dedupAll (m :: used) r).map (m :: ·)
+
+def renameFields (fs : FieldList) (new : List String) : FieldList := (fs.zip new).map fun p => (p.2, p.1.2)
+
+/-- the right table's value fields and globals after the renaming of `Table.join` -/
+def renameRight (l r : TType) : Option (FieldList × FieldList) :=
+  let vs := valueFields r
+  (dedupAll (allNames l) (names vs ++ names r.globals)).map fun new =>
+    (renameFields vs (new.take vs.length), renameFields r.globals (new.drop vs.length))
+
+/-- `tstruct._concat`: a dict update -/
+def concatPy (a b : FieldList) : Option FieldList := some (insertFields a b)
+
+/-- the engine's `TStruct.++`: fatal on a duplicate field name -/
+def concatStrict (a b : FieldList) : Option FieldList :=
+  if (names b).any (fun n => (names a).contains n) || !(names b).Nodup then none else some (a ++ b)
+
+/-- `TableJoin` after the renaming, with the given struct concatenation: globals combined; the left key fields, the left value
+fields, the right value fields; the key is the left key.  The key TYPES (not the names) must agree. -/
+def joinWith (concat : FieldList → FieldList → Option FieldList) (l r : TType) : Option TType :=
+  match keyType l, keyType r, renameRight l r with
+  | some kl, some kr, some (vs, gs) =>
     if kl.map (·.2) != kr.map (·.2) then none
-    else
-      let newNames := names (valueFields r) ++ names r.globals
-      if newNames.any (fun n => (allNames l).contains n) then none
-      else some ⟨l.globals ++ r.globals, kl ++ valueFields l ++ valueFields r, l.key⟩
-  | _, _ => none
+    else match concat l.globals gs, concat (kl ++ valueFields l) vs with
+      | some g, some row => some ⟨g, row, l.key⟩
+      | _, _ => none
+  | _, _, _ => none
+
+/-- the type the joined `Table` reports (`TableJoin._compute_type`) -/
+def joinReported : TType → TType → Option TType := joinWith concatPy
+
+/-- the type the emitted `TableJoin` implies under the engine's rule; `none` when a struct concatenation would be fatal -/
+def joinIR : TType → TType → Option TType := joinWith concatStrict
+
+/-- a front end that does NOT rename the right table's globals (only its row-value fields): the seeded defect, kept as a
+counter-model for `Props/C36.lean::join_globals_must_be_renamed` -/
+def renameRightRowOnly (l r : TType) : Option (FieldList × FieldList) :=
+  let vs := valueFields r
+  (dedupAll (allNames l) (names vs)).map fun new => (renameFields vs new, r.globals)
 
 /-- every key field is a row field -/
 def WellKeyed (t : TType) : Prop := ∀ k ∈ t.key, (lookupF t.row k).isSome = true
